@@ -105,7 +105,7 @@ def check(tier, replay=None):
         for c in cases:
             c["keymap"] = keymap(rng, 5)
         # (B) long random histories over a larger universe
-        for _ in range(200 if T else 30):
+        for _ in range(1500 if T else 30):
             nk = rng.choice([3, 6, 20])
             cap = rng.choice([1, 2, 3, 7, 16])
             ops = []
